@@ -109,8 +109,14 @@ def run_tree(acc: Acc, ctx: Ctx, tree, family: str, flat: list[str] | None = Non
             # arrays are evaluated elementwise
             env = {"x": np.array([e[0] for e in ENVS]), "y": np.array([e[1] for e in ENVS]), "i": np.array([e[2] for e in ENVS])}
             acc.case((text, "array"), nontrivial=nontrivial)
+            keep = {k: v.copy() for k, v in env.items()}
             try:
                 got = impl_eval(ctx, term, env)
+                got2 = impl_eval(ctx, term, env)
+                if not np.array_equal(got, got2, equal_nan=True) or any(not np.array_equal(env[k], keep[k]) for k in env):
+                    acc.violate("not-repeatable", {}, {**case, "env": "array"}, "same values, operands untouched", "differ",
+                                f"{text!r}: a second evaluation differs or the operand arrays were modified")
+                    continue
                 got = np.broadcast_to(got, (len(ENVS),)) if got.ndim == 0 else got
                 g = [float(v) for v in got]
             except Exception as ex:  # noqa: BLE001
